@@ -12,6 +12,7 @@ from ..common import rng_for, digest
 from ..engines import create as E
 from ..gen import spectra as GS
 from ..oracle import spectrum as O
+from ..oracle.hyper import project_exact
 
 LEVEL = "exploration"
 NEEDS = ["cli"]
@@ -21,14 +22,14 @@ RULE = ("spectra with 1-4 axes (lengths 1-6 incl. axes of length 1; positive rea
         "through npy pipes. Direct checks: mask zeroes exactly the first and last cell, normalize sums to 1 (1e-12*cells) and preserves ratios "
         "(1e-12), plain view reproduces the input within 0.5*10^-p. Non-trivial: >=2 options active; distinct = digest(input, argv).")
 ASSUMPTIONS = ["npy pipes between chained invocations are lossless (C07/C15 check that separately)"]
-FLOORS = {"quick": {"evaluations": 500, "distinct_nontrivial": 300, "counts": {"combined_vs_chain": 500, "mask_checks": 100, "normalize_checks": 100}},
+FLOORS = {"quick": {"evaluations": 500, "distinct_nontrivial": 300, "counts": {"combined_vs_chain": 500, "mask_checks": 100, "normalize_checks": 100, "pipeline_vs_exact": 250, "signed_inputs": 10}},
           "thorough": {"evaluations": 30000, "distinct_nontrivial": 15000, "counts": {"combined_vs_chain": 30000}}}
 NSHARD = 32
 
 
 def plan(tier, seed):
     q = tier == "quick"
-    return [{"name": "s%d" % i, "i": i, "n": 4 if q else 64} for i in range(NSHARD)]
+    return [{"name": "s%d" % i, "i": i, "n": 8 if q else 64} for i in range(NSHARD)]
 
 
 def load_npy(b):
@@ -45,9 +46,19 @@ def shard(S, p):
         shape = GS.random_shape(rng, 1, 4, 6)
         if rng.random() < 0.35:
             shape[rng.randrange(len(shape))] = 1
-        vals = GS.values(rng, O.prod(shape), rng.choice(["positive", "positive", "int"]))
-        vals = [v + 1.0 for v in vals]
-        if rng.random() < 0.15:
+        signed = rng.random() < 0.25
+        if signed:
+            # difference / residual spectra and `fold --fill minus-one` output hold negative entries: every step is linear in them
+            vals = GS.values(rng, O.prod(shape), rng.choice(["signed", "dyadic"]))
+            if rng.random() < 0.5:
+                vals = [v if rng.random() < 0.7 else -1.0 for v in vals]
+            S.count("signed_inputs")
+        else:
+            vals = GS.values(rng, O.prod(shape), rng.choice(["positive", "positive", "int"]))
+            vals = [v + 1.0 for v in vals]
+        if signed:
+            pass
+        elif rng.random() < 0.15:
             vals = [v * 2.0 ** -60 for v in vals]            # a spectrum in very small units: its total is far below f64::EPSILON
             S.count("tiny_total_inputs")
         elif rng.random() < 0.3:
@@ -84,6 +95,23 @@ def shard(S, p):
             if use_k and use_n and O.prod(cur) <= 2:
                 nargs = []              # masking everything and then normalizing divides 0 by 0: outside the comparison
                 use_n = False
+            # exact reference of the documented pipeline (rational arithmetic)
+            ex_shape, ex = list(shape), [Fraction(v) for v in vals]
+            if use_m:
+                ex_shape, ex = O.marginalize(ex_shape, ex, remove)
+            if use_p:
+                ex = project_exact(ex_shape, ex, to)
+                ex_shape = list(to)
+            if use_k:
+                ex[0] = Fraction(0)
+                ex[-1] = Fraction(0)
+            if use_n:
+                tot_ = sum(ex)
+                if abs(tot_) * 1000 < sum(abs(e) for e in ex) or tot_ == 0:
+                    nargs = []          # a signed spectrum whose entries (nearly) cancel: normalizing it is ill-conditioned, left out
+                    use_n = False
+                else:
+                    ex = [e / tot_ for e in ex]
             fmt = rng.choice(["text0", "text6", "text12", "npy", "text18", "text30"])
             oargs = ["-O", "npy"] if fmt == "npy" else ["--precision", fmt[4:]]
             combined = cli.sfs(["view"] + margs + pargs + kargs + nargs + oargs, stdin=inp)
@@ -112,6 +140,21 @@ def shard(S, p):
                 S.viol("C13:fail", "[%s] combined rc %s (%r), chain ok=%s (%r)" % (tag, combined.rc, combined.err[:150], chain_ok, chain_runs[-1].err[:150]), wit)
             elif combined.out != data:
                 S.viol("C13:combined-vs-chain", "[%s] combined output differs from the chained single steps: %r vs %r" % (tag, combined.out[-160:], data[-160:]), wit)
+            elif fmt in ("npy", "text12", "text18", "text30"):
+                # ... and both equal the documented pipeline evaluated exactly
+                if fmt == "npy":
+                    arr = load_npy(combined.out)
+                    got_shape, got = list(arr.shape), [float(x) for x in arr.reshape(-1)]
+                else:
+                    ps = E.parse_text_spectrum(combined.out)
+                    got_shape, got = (ps[0], [float(t) for t in ps[1]]) if ps else (None, [])
+                S.count("pipeline_vs_exact")
+                scale = max(sum(abs(e) for e in ex), Fraction(1, 10 ** 300)) if not use_n else Fraction(1)
+                tol = scale / 10 ** 9 + (Fraction(1, 10 ** int(fmt[4:])) if fmt != "npy" else 0)
+                bad = [(j, g, float(e)) for j, (g, e) in enumerate(zip(got, ex)) if not math.isfinite(g) or abs(Fraction(g) - e) > tol]
+                if got_shape != ex_shape or len(got) != len(ex) or bad:
+                    S.viol("C13:pipeline-value", "[%s, %s values] output shape %r differs from the documented pipeline evaluated exactly (shape %r): (flat, got, exact) %r" % (
+                        tag, "signed" if signed else "positive", got_shape, ex_shape, bad[:4]), wit)
             S.case(key=digest([inp.hex()[:2000], combined.argv]), nontrivial=len(stages) >= 2)
             if i == 0 and p["i"] == 0 and subset == (True, True, True, True):
                 S.sample({"combined": combined.argv, "chain": [r.argv for r in chain_runs], "stdout": combined.out[:200].decode("latin1")})
@@ -132,7 +175,9 @@ def shard(S, p):
         S.count("normalize_checks")
         tot = sum(Fraction(float(x)) for x in flat)
         s1 = sum(Fraction(float(x)) for x in normed)
-        if abs(s1 - 1) > Fraction(len(flat), 10 ** 12) or any(abs(Fraction(float(a)) * tot - Fraction(float(b))) > Fraction(float(b)) / 10 ** 12 for a, b in zip(normed, flat)):
+        if signed and abs(tot) * 1000 < sum(abs(Fraction(float(x))) for x in flat):
+            pass        # entries (nearly) cancel: ill-conditioned, not judged
+        elif abs(s1 - 1) > Fraction(len(flat), 10 ** 12) or any(abs(Fraction(float(a)) * tot - Fraction(float(b))) > abs(Fraction(float(b))) / 10 ** 12 for a, b in zip(normed, flat)):
             S.viol("C13:normalize", "[C view -n on shape %r] sum %r, ratios not preserved" % (shape, float(s1)), {"level": "C", "input_b64": E.b64(inp)})
         for prec in (0, 6, 12, 18, 25, 60):
             r = cli.sfs(["view", "--precision", str(prec)], stdin=inp)
